@@ -161,9 +161,13 @@ func genC15(d *RunDesc, tier string) {
 		// a "wide" history: many distinct inputs of one or two kinds in one process,
 		// so that a bounded cache (eviction, resize, generation counters) is driven
 		// past its capacity; siblings of earlier inputs keep recurring
-		length = wl.between(maxLen/2, maxLen)
+		wide := maxLen
+		if wide < 900 && wl.chance(1, 2) {
+			wide = 900 // enough distinct inputs to overflow a cache of a few hundred entries
+		}
+		length = wl.between(wide/2, wide)
 		kinds := []int{wl.intn(NKinds), wl.intn(NKinds)}
-		for i := wl.between(40, maxLen/2); i > 0; i-- {
+		for i := wl.between(40, wide/2); i > 0; i-- {
 			k := pick(wl, kinds)
 			v, _ := genValidVector(wl, k)
 			pool = append(pool, poolInput{k, false, v, 0})
